@@ -106,6 +106,13 @@ var (
 
 // classify turns the first compiler error into a stable class name.
 func classify(out string) (class, first string) {
+	if strings.Contains(out, "import cycle not allowed") {
+		for _, line := range strings.Split(out, "\n") {
+			if strings.Contains(line, "import cycle not allowed") {
+				return "import-cycle", strings.TrimSpace(line)
+			}
+		}
+	}
 	for _, line := range strings.Split(out, "\n") {
 		line = strings.TrimSpace(line)
 		if line == "" || strings.HasPrefix(line, "#") || strings.HasPrefix(line, "package ") && strings.Contains(out, "import cycle") {
@@ -249,6 +256,10 @@ func oneSet(run *ev.Run, gen string, sp setSpec, report bool) (failure string, d
 	pkgRoot := "verifh/c12/" + gen + "/" + sp.name
 	schema := sp.build(pkgRoot)
 	man, err := schema.ManifestV2()
+	if gen == "root" {
+		// the root generator's front end flattens included records and spells paging as parameters
+		man, err = schema.ManifestRoot()
+	}
 	if err != nil {
 		run.Inconclusive("manifest emitter: " + err.Error())
 		return "", nil
@@ -355,7 +366,7 @@ func main() {
 	}
 	// sentinels: hard sets drawn from fixed generator seeds (not VERIF_SEED) that are known to need the cycle remediation
 	// in an order-sensitive way (two overlapping cycles; a package-level cycle through unrelated types)
-	for _, k := range []int64{7919 + 2, 7919 + 9, 7919 + 4, 7919*2 + 0, 7919 + 42} {
+	for _, k := range []int64{7919 + 2, 7919 + 9, 7919 + 4, 7919*2 + 0, 7919 + 42, 7919 + 23} {
 		k := k
 		name := fmt.Sprintf("s%d", k)
 		specs = append(specs, setSpec{name, "hard", func(root string) *corpus.Schema {
